@@ -3,9 +3,12 @@ package main
 import (
 	"fmt"
 	"os"
+	"reflect"
 	"strconv"
 	"sync"
 	"time"
+
+	"github.com/mfcochauxlaberge/jsonapi"
 )
 
 // racer mode (binary built with -race): G goroutines run random mixes of the read-only
@@ -17,29 +20,59 @@ func racerMain() {
 	ms, _ := strconv.Atoi(os.Args[4])
 	r0 := newRng(seed, "racer")
 	o := &Out{stats: map[string]int{}}
-	s, ts := genSchema(r0, o)
 	deadline := time.Now().Add(time.Duration(ms) * time.Millisecond)
-	var wg sync.WaitGroup
 	counts := make([]int, g)
-	for i := 0; i < g; i++ {
-		wg.Add(1)
-		go func(i int) {
-			defer wg.Done()
-			r := newRng(seed+uint64(i)*7919, "racer-thread")
-			lo := &Out{stats: map[string]int{}}
-			for time.Now().Before(deadline) {
+	rounds := 0
+	// rounds: each one builds a fresh schema (so that the first uses of its types, which
+	// is when lazily initialised state would be written, happen concurrently), one type
+	// being struct-backed with every attribute kind
+	for time.Now().Before(deadline) {
+		rounds++
+		s, ts := genSchema(r0, o)
+		addBareTypes(r0, s)
+		all := jsonapi.Type{Name: "allkinds"}
+		for k := 1; k <= 14; k++ {
+			_ = all.AddAttr(jsonapi.Attr{Name: "a" + strconv.Itoa(k), Type: k})
+			_ = all.AddAttr(jsonapi.Attr{Name: "n" + strconv.Itoa(k), Type: k, Nullable: true})
+		}
+		_ = all.AddRel(jsonapi.Rel{FromType: "allkinds", FromName: "many", ToType: "allkinds"})
+		if bt, err := jsonapi.BuildType(reflect.New(structTypeFor(all)).Interface()); err == nil {
+			_ = s.AddType(bt)
+			ts = append(ts, stype{bt, true})
+		}
+		roundEnd := time.Now().Add(15 * time.Millisecond)
+		var wg sync.WaitGroup
+		start := make(chan struct{})
+		for i := 0; i < g; i++ {
+			wg.Add(1)
+			go func(i int) {
+				defer wg.Done()
+				r := newRng(seed+uint64(i)*7919+uint64(rounds)*104729, "racer-thread")
+				lo := &Out{stats: map[string]int{}}
+				<-start
+				// first: everybody uses the all-kinds type at once
 				func() {
 					defer func() { _ = recover() }()
-					SharedOp(r, s, ts, lo)
+					t := s.GetType("allkinds")
+					res := t.New()
+					_ = res.Get("a14")
+					_, _ = jsonapi.UnmarshalDocument([]byte(`{"data":{"id":"1","type":"allkinds"}}`), s)
 				}()
-				counts[i]++
-			}
-		}(i)
+				for time.Now().Before(roundEnd) {
+					func() {
+						defer func() { _ = recover() }()
+						SharedOp(r, s, ts, lo)
+					}()
+					counts[i]++
+				}
+			}(i)
+		}
+		close(start)
+		wg.Wait()
 	}
-	wg.Wait()
 	total := 0
 	for _, c := range counts {
 		total += c
 	}
-	fmt.Printf("racer goroutines=%d ops=%d\n", g, total)
+	fmt.Printf("racer goroutines=%d ops=%d rounds=%d\n", g, total, rounds)
 }
